@@ -49,11 +49,20 @@ def text_order(node):
     """A copy by value travels through text: in the copy the fields of a segment (components of a field,
     ...) are listed in position order, repetitions in their order, whatever the insertion order of the
     original was (visible to children[i] / pop(i) only, never to the encoding)."""
+    node.tag = None        # (a datatype given to the original at construction does not travel through text)
     if node.kind in ('seg', 'fld', 'cmp'):
+        # present-but-empty children have no text: they are not in the copy
+        node.kids = [k for k in node.kids if not _is_blank(k)]
         node.kids.sort(key=lambda k: k.key)       # stable: repetitions keep their order
     for k in node.kids:
         text_order(k)
     return node
+
+
+def _is_blank(node):
+    if node.kind == 'sub':
+        return not node.val
+    return all(_is_blank(k) for k in node.kids)
 
 
 def has_empty(node):
